@@ -26,7 +26,7 @@ import (
 func init() {
 	setTier("C16", 60000, 240, 2000000, 1800)
 	levelOf["C16"] = "exploration"
-	ruleOf["C16"] = "one run = one seeded scenario (settings applied through ApplyConfig or left at the built-in defaults, consuming or retaining client, 1-3 producers adding unique records of sizes 0 B..beyond the buffer limit with seeded gaps, optional SendDirect batches, optional cancel at a seeded instant) under one seeded schedule; oracles over the packs handed to a recording TcpClient (bytes captured at hand-over and again at the end) (plus: a second configuration omitting settings, a reload at runtime changing queue size or shortening the wait, a slow or failing client, direct-only senders, multi-byte content, skewed record time stamps); non-trivial = a context switch inside an Add/SendDirect or a cancel fired; distinct = distinct fingerprint of (switch sequence, emitted pack sequence)"
+	ruleOf["C16"] = "one run = one seeded scenario (settings applied through ApplyConfig or left at the built-in defaults, consuming or retaining client, 1-3 producers adding unique records of sizes 0 B..beyond the buffer limit with seeded gaps, optional SendDirect batches, optional cancel at a seeded instant) under one seeded schedule; oracles over the packs handed to a recording TcpClient (bytes captured at hand-over and again at the end) (plus: a second configuration omitting settings, a reload at runtime changing queue size, shortening the wait or moving the compression threshold (half of the latter placed inside a flush), records of 66-306 KB, a slow or failing client, direct-only senders, multi-byte content, skewed record time stamps); non-trivial = a context switch inside an Add/SendDirect or a cancel fired; distinct = distinct fingerprint of (switch sequence, emitted pack sequence)"
 	assumptionsOf["C16"] = []string{
 		"the sender is obtained through GetInstance (real constructor path) after resetting the package singleton with the verif-tagged hook; settings are applied only through the public ApplyConfig, in the sequential prologue; in a quarter of the configured runs a reload at a seeded instant changes the queue size alone (records already accepted stay accepted)",
 		"slow-client fault: the hand-over to the client blocks for up to one wait-time, at most twice per run; the liveness window grows by that much",
